@@ -628,7 +628,15 @@ func runC08(c *RunCtx) {
 	recv := newValue(name)
 	if t.Intn(4) == 3 {
 		// the receiver object is reused: it decoded another message of this type before
-		if other, ok := genSent(c, g, name); ok {
+		other, ok := genSent(c, g, name)
+		if ok && t.Intn(2) == 0 {
+			// ... a close relative of the one arriving now
+			var vb bytes.Buffer
+			if rr := tryEncode(variantOf(s.pre, t.Bulk()), &vb); rr.Err == nil && rr.Panic == nil {
+				other.w = cloneBytes(vb.Bytes())
+			}
+		}
+		if ok {
 			if rr := tryDecode(recv, bytes.NewBuffer(cloneBytes(other.w))); rr.Err == nil && rr.Panic == nil {
 				c.Fire("recv.dirty")
 				desc += " into a receiver that decoded another " + name + " before"
@@ -921,6 +929,21 @@ func runC15(c *RunCtx) {
 			}
 		}
 	}
+	// related history: the receiver held a close relative of what arrives now (texts that are
+	// prefixes of each other, shorter or longer lists, zeroed numbers, same body types)
+	var relative []byte
+	if desc == "valid" && t.Intn(3) == 0 {
+		v := variantOf(s.pre, t.Bulk())
+		var vb bytes.Buffer
+		if rr := tryEncode(v, &vb); rr.Err == nil && rr.Panic == nil {
+			relative = cloneBytes(vb.Bytes())
+			if t.Intn(2) == 0 {
+				// the relative arrives, the original was held
+				w, relative = relative, w
+				desc = "valid (a relative of what the receiver held)"
+			}
+		}
+	}
 	fresh := newValue(name)
 	fb := bytes.NewBuffer(cloneBytes(w))
 	r := tryDecode(fresh, fb)
@@ -932,7 +955,20 @@ func runC15(c *RunCtx) {
 	// partial stream (what a receive loop does between two complete frames)
 	var dirty any
 	how := ""
-	switch t.Intn(5) {
+	first := t.Intn(5)
+	if relative != nil {
+		first = 5
+	}
+	switch first {
+	case 5:
+		dirty = newValue(name)
+		if rr := tryDecode(dirty, bytes.NewBuffer(cloneBytes(relative))); rr.Err != nil || rr.Panic != nil {
+			c.Probe("skip.dirtying-decode-failed")
+			return
+		}
+		how = "previously decoded a close relative of this message"
+		c.Probe("history.relative")
+		c.LogValue("RECEIVER HELD", dirty)
 	case 0, 1:
 		// decoded another message before
 		saved := g.cfg
